@@ -55,7 +55,11 @@ where
         && back.data.iter().enumerate().all(|(i, b)| *b == canary(GUARD + need + i));
     match r {
         Ok(out) => RunRes { kind: 0, canary_ok: ok, out },
-        Err(p) => RunRes { kind: panic_kind(&panic_class(p)), canary_ok: ok, out: vec![] },
+        Err(p) => {
+            let m = panic_class(p);
+            if std::env::var("C12_VERBOSE").is_ok() { eprintln!("c12: need={} panic: {}", need, m); }
+            RunRes { kind: panic_kind(&m), canary_ok: ok, out: vec![] }
+        }
     }
 }
 
@@ -464,6 +468,7 @@ pub fn generate(tier: &str, seed: u64) -> Vec<Rec> {
                 (17, 17, 13, 39, 17, 34, 1, 1, 1, 1),      // cross-radix, one-limb result
                 (12, 60, 12, 58, 12, 72, 1, 1, 3, 2),      // a.size not a multiple of dsize
                 (17, 51, 17, 51, 17, 51, 1, 1, 1, 2),      // dsize 2, same radix everywhere
+                (17, 17, 13, 13, 17, 34, 1, 1, 1, 1),      // cross-radix one-limb rank-1 input (witness of C12_suffices_glwe_automorphism_add_refuted)
             ];
             for &(rb, rk, ab, ak, kb, kk, rin, rout, dnum, dsize) in ks {
                 let mut ps = vec![be, n];
